@@ -29,6 +29,9 @@ namespace
         std::map<size_t, PeerLog> peers;
         int total_connects = 0, total_disconnects = 0;
         std::vector<std::thread> async; // handlers that answer from their own thread (joined before the endpoint stops)
+        // response writers whose handler armed a response time-out (timeoutAfter) and did not answer:
+        // the time-out expires (408 through onTimeout), the writer itself lives until a /sweep request
+        std::vector<std::shared_ptr<Http::ResponseWriter>> parked;
     };
 
     class Handler : public Http::Handler
@@ -96,6 +99,34 @@ namespace
                                        std::move(w));
                 return;
             }
+            if (res.rfind("/timed/", 0) == 0)
+            {
+                // /timed/<ms>/now : arm a response time-out, answer at once (the timer must be released with the response)
+                // /timed/<ms>/park: arm it and do not answer; the writer is kept until /sweep
+                int ms    = atoi(res.c_str() + 7);
+                bool park = res.find("/park") != std::string::npos;
+                w.timeoutAfter(std::chrono::milliseconds(ms));
+                if (!park)
+                {
+                    w.send(Http::Code::Ok, "ok");
+                    return;
+                }
+                auto keep = std::make_shared<Http::ResponseWriter>(std::move(w));
+                std::lock_guard<std::mutex> g(sh->m);
+                sh->parked.push_back(keep);
+                return;
+            }
+            if (res == "/sweep")
+            {
+                std::vector<std::shared_ptr<Http::ResponseWriter>> gone;
+                {
+                    std::lock_guard<std::mutex> g(sh->m);
+                    gone.swap(sh->parked);
+                }
+                gone.clear(); // the writers (and their expired time-outs) are destroyed here
+                w.send(Http::Code::Ok, "ok");
+                return;
+            }
             if (res.rfind("/busy/", 0) == 0)
             {
                 net::sleep_ms(atoi(res.c_str() + 6)); // keeps this connection's worker from looking at its sockets
@@ -115,8 +146,12 @@ namespace
                Reset,
                AbortBigResponse,
                Silence,
-               GoneBeforeAsyncAnswer };
-    const char* END_NAMES[] = { "close", "shutdown(WR)+read-to-EOF", "RST", "abort-with-response-pending", "silence-until-timeout", "gone-before-async-answer" };
+               GoneBeforeAsyncAnswer,
+               TimedAnswered,  // k requests whose handler arms a response time-out and answers in time
+               TimedParked,    // one request whose handler arms a 100 ms response time-out and never answers: 408 expected
+               AcrossSweep };  // request, pause, (one connection of the round asks for /sweep), request again, close
+    const char* END_NAMES[] = { "close", "shutdown(WR)+read-to-EOF", "RST", "abort-with-response-pending", "silence-until-timeout", "gone-before-async-answer",
+                                "response-timeout-armed-and-answered", "response-timeout-expires(writer parked)", "open-across-sweep-of-parked-writers" };
 
     struct ConnScript
     {
@@ -128,6 +163,7 @@ namespace
         // `parts` flushes; this connection's worker is busy for busy_ms; the client leaves at gone_ms
         int answer_ms = 30, parts = 2, busy_ms = 80, gone_ms = 15;
         bool gone_by_reset = false;
+        bool sweeper       = false; // AcrossSweep: this connection sends the /sweep
         std::string fail;
     };
 
@@ -186,6 +222,34 @@ namespace
             net::sleep_ms(30); // the server is now blocked writing 400 KiB into a 4 KiB window
             net::reset_close(fd);
             break;
+        case TimedAnswered: {
+            for (int i = 0; i < 3 && s.fail.empty(); ++i)
+                if (!net::send_all(fd, "GET /timed/2000/now HTTP/1.1\r\nHost: x\r\n\r\n") || !net::read_message(fd, carry, true, m, 5000, err) || m.status != 200)
+                    s.fail = "request with a response time-out armed was not answered 200: " + err;
+            ::close(fd);
+            break;
+        }
+        case TimedParked: {
+            if (!net::send_all(fd, "GET /timed/100/park HTTP/1.1\r\nHost: x\r\n\r\n") || !net::read_message(fd, carry, true, m, 5000, err))
+                s.fail = "no answer at all to a request whose response time-out (100 ms) expired: " + err;
+            else if (m.status != 408)
+                s.fail = "status " + std::to_string(m.status) + " instead of 408 after the response time-out expired";
+            ::close(fd);
+            break;
+        }
+        case AcrossSweep: {
+            if (!net::send_all(fd, REQ) || !net::read_message(fd, carry, true, m, 5000, err) || m.status != 200)
+                s.fail = "first request not answered 200: " + err;
+            net::sleep_ms(s.sweeper ? 40 : 90);
+            if (s.fail.empty() && s.sweeper && (!net::send_all(fd, "GET /sweep HTTP/1.1\r\nHost: x\r\n\r\n") || !net::read_message(fd, carry, true, m, 5000, err) || m.status != 200))
+                s.fail = "/sweep not answered 200: " + err;
+            if (s.sweeper)
+                net::sleep_ms(50);
+            if (s.fail.empty() && (!net::send_all(fd, REQ) || !net::read_message(fd, carry, true, m, 5000, err) || m.status != 200))
+                s.fail = "a connection that was open and idle while parked response writers were destroyed is no longer served: " + err;
+            ::close(fd);
+            break;
+        }
         case GoneBeforeAsyncAnswer: {
             net::send_all(fd, "GET /async/" + std::to_string(s.answer_ms) + "/" + std::to_string(s.parts) + " HTTP/1.1\r\nHost: x\r\n\r\n");
             net::sleep_ms(3);
@@ -278,6 +342,40 @@ namespace verif
                 desc += "| ";
                 plan.push_back(extra);
                 ++rounds;
+            }
+        }
+        {
+            // response time-outs (decoded last of all, so that older inputs keep their meaning)
+            unsigned nt = c.pick(3); // 0: none, 1: armed-and-answered only, 2: expiry + sweep scenario
+            if (nt >= 1)
+            {
+                std::vector<ConnScript> r1(1 + c.pick(3));
+                for (auto& s : r1)
+                    s.end = TimedAnswered;
+                kinds.insert(int(TimedAnswered));
+                plan.push_back(r1);
+                ++rounds;
+                desc += std::to_string(r1.size()) + "x response-timeout-armed-and-answered | ";
+            }
+            if (nt == 2)
+            {
+                // round A: writers parked, their time-outs expire and close their timer descriptors;
+                // round B: new connections take the freed descriptor numbers, one of them has the
+                // parked writers destroyed, all of them must still be served afterwards
+                std::vector<ConnScript> ra(1 + c.pick(2));
+                for (auto& s : ra)
+                    s.end = TimedParked;
+                std::vector<ConnScript> rb(2 + c.pick(3));
+                for (auto& s : rb)
+                    s.end = AcrossSweep;
+                rb[0].sweeper = true;
+                kinds.insert(int(TimedParked));
+                kinds.insert(int(AcrossSweep));
+                plan.push_back(ra);
+                plan.push_back(rb);
+                rounds += 2;
+                inflight = true;
+                desc += std::to_string(ra.size()) + "x response-timeout-expires(writer parked) | " + std::to_string(rb.size()) + "x open-across-sweep | ";
             }
         }
         std::string cfg = "workers=" + std::to_string(workers) + (timeouts ? " timeouts=1s" : "") + " rounds=" + std::to_string(rounds);
@@ -392,6 +490,13 @@ namespace verif
                     run_conn(f, srv.port);
                     if (!f.fail.empty())
                         verdict = Verdict::fail("C08/timing/not-serving-afterwards", cfg + ": a fresh connection is not served: " + f.fail + " :: " + desc);
+                }
+            }
+            {
+                std::vector<std::shared_ptr<Http::ResponseWriter>> gone;
+                {
+                    std::lock_guard<std::mutex> g(sh->m);
+                    gone.swap(sh->parked);
                 }
             }
             {
